@@ -660,6 +660,17 @@ Definition split_filter_by (fn : gen_splitfn) (x : bytes) : option (bytes * bool
 Definition split_filter_old (x : bytes) : bytes * bool :=
   let nf := remove_last_filter x in (nf, negb (bytes_eqb x nf)).
 
+(* Union targets "alt1 | alt2 | main[filters]": further path parts before the main one (so that
+   the filters, if any, are trailing).  Without filters a union is inside the class of the
+   theorems - its path predicate is the disjunction; with filters the final predicate would
+   depend on the branch, which the class does not cover: those cases are compared on the
+   implementation only. *)
+Definition pm_of_steps := pm_steps.
+Definition render_alts (alts : list (list (axis * nametest))) : bytes :=
+  flat_map (fun a => render_steps a ++ bs " | ") alts.
+Definition pm_union (alts : list (list (axis * nametest))) (tg : target) (c : list name) : bool :=
+  existsb (fun a => pm_steps a c) alts || pm_of_steps (t_steps tg) c.
+
 (* ---- correspondence cases ---------------------------------------------------------------------- *)
 Definition pm_of (tg : target) : list name -> bool := pm_steps (t_steps tg).
 Definition pred_target (tg : target) : tree -> bool := preds_of (t_filters tg).
@@ -674,6 +685,7 @@ Record xcase := mkXCase {
   xc_doc : list xnode;            (* the generated document *)
   xc_tokens : list xtoken;        (* what an independent xml.Decoder returned for its text *)
   xc_target : target;
+  xc_alts : list (list (axis * nametest));  (* union branches before the main path; [] = no union *)
   xc_xpath : bytes;               (* the xpath text given to NewXMLStreamReader *)
   xc_rel : list bool;             (* Release called after the k-th delivery? *)
   xc_deliv : list (tree * nat);   (* snapshots at delivery time, with the reachable tree size *)
@@ -697,11 +709,12 @@ Definition check_xcase (c : xcase) : bool :=
   (* the tokenizer model: the token stream is the one the document determines *)
   list_eqb xtoken_eqb (xdoc_events (xc_doc c)) (xc_tokens c)
   (* the target term and the xpath text are the same target; the split is the code's split *)
-  && bytes_eqb (render_target tg) (xc_xpath c)
-  && bytes_eqb nf (render_steps (t_steps tg))
+  && bytes_eqb (render_alts (xc_alts c) ++ render_target tg) (xc_xpath c)
+  && bytes_eqb nf (render_alts (xc_alts c) ++ render_steps (t_steps tg))
+  && (match xc_alts c, t_filters tg with _ :: _, _ :: _ => false | _, _ => true end)
   && Bool.eqb hasf (negb (match t_filters tg with [] => true | _ => false end))
   (* the reader model, run on the same tokens, delivers the same snapshots *)
-  && (let pm := pm_of tg in
+  && (let pm := pm_union (xc_alts c) tg in
       let '(ds, fin) := xrun pm (pred_target tg) hasf false x_init (xc_rel c) (xc_tokens c) in
       list_eqb deliv_eqb ds (xc_deliv c) && fin_matches fin (xc_fin c)
       (* and, redundantly with the theorem, whole-document selection on the model side *)
@@ -712,6 +725,7 @@ Record jcase := mkJCase {
   jc_doc : jnode;
   jc_tokens : list jtoken;
   jc_target : target;
+  jc_alts : list (list (axis * nametest));
   jc_xpath : bytes;
   jc_rel : list bool;
   jc_deliv : list (tree * nat);
@@ -732,10 +746,11 @@ Definition check_jcase (c : jcase) : bool :=
   match split_filter_by gen_json_splitfn (jc_xpath c) with None => false | Some (nf, hasf) =>
   jwf (jc_doc c)
   && list_eqb jtoken_eqb (jdoc_events (jc_doc c)) (jc_tokens c)
-  && bytes_eqb (render_target tg) (jc_xpath c)
-  && bytes_eqb nf (render_steps (t_steps tg))
+  && bytes_eqb (render_alts (jc_alts c) ++ render_target tg) (jc_xpath c)
+  && bytes_eqb nf (render_alts (jc_alts c) ++ render_steps (t_steps tg))
+  && (match jc_alts c, t_filters tg with _ :: _, _ :: _ => false | _, _ => true end)
   && Bool.eqb hasf (negb (match t_filters tg with [] => true | _ => false end))
-  && (let pm := pm_of tg in
+  && (let pm := pm_union (jc_alts c) tg in
       let '(ds, fin) := jrun pm (pred_target tg) hasf false j_init (jc_rel c) (jc_tokens c) in
       list_eqb deliv_eqb ds (jc_deliv c) && fin_matches fin (jc_fin c)
       && list_eqb tree_eqb (map fst ds) (whole_doc_selection pm (pred_target tg) (jdoc_tree (jc_doc c))))
